@@ -40,8 +40,8 @@ func c23Guards(p *an.Prog, r *an.R, rule string, which []string) {
 		result *types.Named
 		min    int
 	}{
-		{"(*indexData).Search", p.Named("", "SearchResult"), 3},
-		{"(*indexData).List", p.Named("", "RepoList"), 3},
+		{"(*indexData).Search", p.Named("", "SearchResult"), 2},
+		{"(*indexData).List", p.Named("", "RepoList"), 2},
 	} {
 		f := p.SSAFunc(p.Func("index", spec.fn))
 		if !r.Anchor(f != nil && spec.result != nil, "index."+spec.fn) {
